@@ -46,7 +46,9 @@ def emit_one(g, gi, runtime_ctor=False, limits=None, extra_decl=''):
             else:
                 o.append('constexpr char_term t%d(%s, %d, %s);' % (j, cchar(t.text), t.prec, ASSOC[t.assoc])); ref = 't%d' % j
         elif t.kind == 'k':
-            o.append('constexpr custom_term t%d(%s, vf::TT<%d, %s>{}, %d, %s);' % (j, cstr(t.display()), j, VT[getattr(g, 'tvtype', 'V')], t.prec, ASSOC[t.assoc])); ref = 't%d' % j
+            if t.typed == 'n': o.append('constexpr custom_term t%d(%s, create<no_type>{}, %d, %s);' % (j, cstr(t.display()), t.prec, ASSOC[t.assoc]))
+            else: o.append('constexpr custom_term t%d(%s, vf::TT<%d, %s>{}, %d, %s);' % (j, cstr(t.display()), j, VT[getattr(g, 'tvtype', 'V')], t.prec, ASSOC[t.assoc]))
+            ref = 't%d' % j
             tref.append(ref); continue
         elif t.kind == 's':
             if plain and not t.typed: ref = cstr(t.text)
@@ -62,7 +64,9 @@ def emit_one(g, gi, runtime_ctor=False, limits=None, extra_decl=''):
         if t.typed:
             if ref[0] in '\'"':
                 o.append('constexpr %s t%d(%s);' % ('char_term' if t.kind == 'c' else 'string_term', j, ref)); ref = 't%d' % j
-            o.append('constexpr typed_term tt%d(%s, vf::TT<%d, %s>{});' % (j, ref, j, VT[getattr(g, 'tvtype', 'V')])); ref = 'tt%d' % j
+            if t.typed == 'n': o.append('constexpr typed_term tt%d(%s, create<no_type>{});' % (j, ref))
+            else: o.append('constexpr typed_term tt%d(%s, vf::TT<%d, %s>{});' % (j, ref, j, VT[getattr(g, 'tvtype', 'V')]))
+            ref = 'tt%d' % j
         tref.append(ref)
     rules = []
     is_ctx = False
